@@ -534,7 +534,9 @@ func (c *refctx) eval(e *rx, r int) rres {
 			if x.st == 2 {
 				return x
 			}
-			if len(x.vals) == 0 {
+			// "Require a non-empty match": it is consumed input that counts, not
+			// produced values (a capture of nothing still yields a value)
+			if len(x.vals) == 0 || x.r == r {
 				return rres{st: 2, r: x.r}
 			}
 			return x
